@@ -898,7 +898,7 @@ class BootstrapElectionModel(BaseElectionModel):
                             "est_correction_std": np.nan,
                             "est_correction_count": 0,
                         },
-                        index=[df.geographic_unit_fips.iloc[0]],
+                        index=[df.name],
                     )
 
                 return pd.DataFrame(
@@ -909,7 +909,7 @@ class BootstrapElectionModel(BaseElectionModel):
                         "est_correction_std": np.nanstd(df_filtered.est_correction.values, ddof=1),
                         "est_correction_count": df_filtered.est_correction.count(),
                     },
-                    index=[df.geographic_unit_fips.iloc[0]],
+                    index=[df.name],
                 )
 
             corrections = grouped_est_corrections.apply(compute_correction_statistics).reset_index()
